@@ -11,12 +11,19 @@ Deferred, or addTimeout on the simulated clock expiring), option hooks of an
 endpoint raise (disableLocal/disableRemote of an application, or the stock ones
 of a class that overrides only enable*, and enable* hooks that crash instead of
 refusing) - an exception escaping dataReceived ends the connection the way a
-reactor ends it - or the connection is simply lost.
+reactor ends it - or the connection is simply lost.  A fifth of the requests
+carry a callback that issues a further request when the first one's Deferred
+fires - about the same option or about another one ("LINEMODE refused? then
+offer ECHO") - and in a share of the runs such callbacks also act when the
+Deferred fires because the connection ended.
 
 Oracle (written from the statement, not from the state maps):
   * every request Deferred fires exactly once — never twice at any moment, none
     pending once all messages are delivered or the connection has ended
-    (a request given up fires through its cancellation and never again);
+    (a request given up fires through its cancellation and never again;
+    a request that a callback issues while the connection is being torn down
+    is not judged itself, but it must not keep connectionLost from firing
+    the Deferreds of the requests issued before);
   * no handler raises (this covers the "can never be entered" assertions);
   * the number of negotiation commands on the wire stays below a bound linear
     in the number of requests (a reply-to-a-reply loop exceeds it); a request
@@ -55,7 +62,10 @@ COMPONENTS = {"real": ["twisted.conch.telnet.Telnet.will/wont/do/dont", "twisted
 RULE = ("run = up to 10 will/wont/do/dont requests by either side over 1-3 options (ECHO/SGA/LINEMODE; in 40% of the runs some are replaced by option codes "
         "from the rest of the byte range: 0, LF, CR, SE, NOP, GA, SB, WILL, WONT, DO, DONT=254, IAC=255, or any byte), interleaved with tape-chosen network events "
         "(move written bytes onto the wire / deliver 1..all bytes to one side) and occasional application bytes, a fifth of the requests followed by a re-entrant "
-        "request about the same option issued from inside the first one's Deferred callback, then a drain; "
+        "request issued from inside the first one's Deferred callback - about the same option or (per-run weight 0/2/6 against 3) about another option of the "
+        "run, the 'fall back to a second option' idiom - then a drain; in half of the runs in which the connection can end, such callbacks also act when the "
+        "Deferred fires because of the connection's end (in the END_FOLLOWUP_FRESH_OPTION_P share of those they may name an option the endpoint has had no "
+        "dealings with; otherwise the same option or one the endpoint requested before); "
         "in half of the runs the application gives up on requests: cancel() of a request's Deferred at a tape-chosen moment (mostly while it is unanswered) "
         "and/or addTimeout(1|2|5 s) on the simulated clock, which a 'tick' event advances between network events; "
         "in a quarter of the runs each option hook of each endpoint is drawn from ok / raises (60% of the calls) / stock Telnet.disableLocal|disableRemote "
@@ -67,7 +77,9 @@ ASSUMPTIONS = ["an endpoint requests will(o)/do(o) only for options its own enab
                "never raises for an option in its own policy (a policy that crashes does not 'accept'; the statement is silent there)",
                "each direction is reliable and FIFO while the connection is up; an exception escaping dataReceived ends the connection (what every reactor "
                "does), after which agreement is not judged (not all messages were delivered) but every request's Deferred must have fired exactly once",
-               "no request is issued on a connection that has ended",
+               "no request is issued on a connection that has ended, except from a callback of a request's Deferred that the connection's end itself fires "
+               "(an errback that does not look at the failure): that request is not judged (the statement is silent; nothing can answer it), but "
+               "connectionLost must not raise because of it and the requests issued before it must all still fire exactly once",
                "giving up on a request may cost one further exchange (a withdrawal and its answer): the message bound grows by 2 per request given up "
                "while unanswered - the statement forbids loops, not a bounded withdrawal"]
 
@@ -94,6 +106,13 @@ HOOKS = ("disableLocal", "disableRemote", "enableLocal", "enableRemote")
 # so Telnet's own disable* runs, which raises NotImplementedError by design
 HOOK_MODES = {"disableLocal": ["ok", "raise", "stock"], "disableRemote": ["ok", "stock", "raise"], "enableLocal": ["ok", "raise"], "enableRemote": ["ok", "raise"]}
 TIMEOUTS = [2, 1, 5]
+# Knob: share of the runs (among those whose callbacks issue requests while the connection is being torn down) in which such a
+# request may name an option this endpoint has no dealings with yet.  That is the precondition of a genuine defect of the tree as
+# first examined, REPAIRED in /repo 54823eb: "Telnet.connectionLost iterates self.options while its errbacks add a record"
+# (RuntimeError, the remaining Deferreds never fired; witness t.do(LINEMODE).addErrback(lambda f: t.will(ECHO)); d2 = t.do(SGA);
+# t.connectionLost(reason)).  The precondition is let into this share (0.15) of those runs, 0 is only for dev-time comparison;
+# in the other runs those requests name the option of the request that just failed or one the endpoint requested before.
+END_FOLLOWUP_FRESH_OPTION_P = 0.15
 
 
 class HookError(Exception):
@@ -226,6 +245,11 @@ def run(sim):
     timeout_p = sim.draw_choice([0.0, 0.3], "timeout_share") if giveup_w else 0.0
     hook_faults = sim.draw_bool(0.25, "hook_faults")
     loss_w = 1 if sim.draw_bool(0.1, "connection_may_be_lost") else 0
+    # what the callback that follows up a request asks for: weight of "another option of the run" against 3 for "the same option"
+    other_w = sim.draw_choice([0, 2, 6], "followup_other_option_weight") if nopts > 1 else 0
+    # do such callbacks also act when the Deferred fires because the connection ended (errbacks that do not look at the failure)?
+    end_followups = sim.draw_bool(0.5, "followups_at_connection_end") if (loss_w or hook_faults) else False
+    end_fresh = end_followups and other_w > 0 and sim.draw_bool(END_FOLLOWUP_FRESH_OPTION_P, "end_followup_fresh_option")
     ends = []
     cfg = {}
     for name in ("A", "B"):
@@ -248,7 +272,8 @@ def run(sim):
     app_p = sim.draw_choice([0, 0, 1, 3], "appdata_weight")
     eager = sim.draw_choice([2, 1, 6], "request_weight")
     sim.config = {"nopts": nopts, "opts": [oname(o) for o in opts], "nreq": nreq, "policy": cfg, "appdata_weight": app_p, "request_weight": eager,
-                  "giveup_weight": giveup_w, "timeout_share": timeout_p, "connection_may_be_lost": bool(loss_w)}
+                  "giveup_weight": giveup_w, "timeout_share": timeout_p, "connection_may_be_lost": bool(loss_w),
+                  "followup_other_option_weight": other_w, "followups_at_connection_end": end_followups, "end_followup_fresh_option": end_fresh}
     link = net.Link(sim, a, b)
     link.connect()
     trans = {"A": link.a, "B": link.b}
@@ -256,7 +281,7 @@ def run(sim):
 
     requests = []      # dicts: side, kind, opt, results[]
     app_sent = {"A": bytearray(), "B": bytearray()}
-    flags = {"sent": 0, "crossing": 0, "reentrant": 0, "abandoned": 0, "giveups": 0, "lost": False, "loss_types": ()}
+    flags = {"sent": 0, "crossing": 0, "reentrant": 0, "abandoned": 0, "giveups": 0, "lost": False, "loss_types": (), "end_guard": None}
 
     def bound():
         # a request puts one command on the wire and its peer answers with at most
@@ -301,10 +326,36 @@ def run(sim):
         o = sim.draw_choice(opts, "opt")
         issue(e, pick_kind(e, o, "kind"), o, sim.draw_bool(0.2, "followup"))
 
+    def followup_option(e, o):
+        """The option the follow-up callback of a request about o asks for: o itself, or another option of the run."""
+        if not other_w:
+            return o
+        if flags["lost"] and not end_fresh:
+            # the connection is being torn down: only options this endpoint has had dealings with (the knob's purpose)
+            mine = set(r["opt"] for r in requests if r["side"] == e.name)
+            others = [x for x in opts if x != o and x in mine]
+        else:
+            others = [x for x in opts if x != o]
+        if not others:
+            return o
+        o2 = sim.draw_weighted([(o, 3)] + [(x, other_w) for x in others], "followup_opt")
+        if o2 != o:
+            sim.probe("followup_other_option")
+        return o2
+
     def issue(e, k, o, followup):
-        """Issue one request.  followup: when its Deferred fires, issue another request about the same option from inside
-        the callback (an application that re-enables as soon as a disable is acknowledged, and the like)."""
+        """Issue one request.  followup: when its Deferred fires, issue another request from inside the callback - about the same
+        option (an application that re-enables as soon as a disable is acknowledged) or about another one (falling back to a
+        second option when the first is refused); in some runs the callback also acts when the connection's end fires the Deferred."""
         r = {"side": e.name, "kind": k, "opt": o, "results": []}
+        if flags["lost"]:
+            # issued from a callback while the connection is being torn down: the statement is silent about this request itself
+            r["at_end"] = True
+            sim.probe("request_at_connection_end")
+            if not any(q["side"] == e.name and q["opt"] == o for q in requests):
+                sim.fault("request_at_connection_end_fresh_option")
+            if flags["end_guard"] is not None:
+                flags["end_guard"].witness = "request-from-callback"
         idx = len(requests)
         requests.append(r)
         before = _ncommands(trans[e.name])
@@ -339,10 +390,11 @@ def run(sim):
                           "request #%d %s.%s failed with %s: %s" % (idx, r["side"], r["kind"], res.type.__name__, res.getErrorMessage()))
             else:
                 sim.check("outcome-kind", res is True, r["kind"], "request #%d fired with %r" % (idx, res))
-            if followup and len(r["results"]) == 1 and len(requests) < nreq + 4 and not flags["lost"]:
+            if followup and len(r["results"]) == 1 and len(requests) < nreq + 4 and (end_followups or not flags["lost"]):
                 sim.probe("reentrant_request")
                 flags["reentrant"] += 1
-                issue(e, pick_kind(e, o, "followup_kind"), o, False)
+                o2 = followup_option(e, o)
+                issue(e, pick_kind(e, o2, "followup_kind"), o2, False)
             return None
 
         d.addBoth(fired)
@@ -350,7 +402,7 @@ def run(sim):
         sim.event("request", idx, e.name, k, oname(o), "wire" if went else "immediate:" + ",".join(r["results"]))
         if went:
             flags["sent"] += went
-        else:
+        elif not r.get("at_end"):
             sim.probe("immediate_" + (r["results"][0] if r["results"] else "none"))
             # a request that put nothing on the wire has nothing to wait for
             sim.check("immediate-or-wire", len(r["results"]) == 1, k,
@@ -368,10 +420,12 @@ def run(sim):
         flags["loss_types"] = tuple({reason_first.type, reason_second.type})
         del link.flight["A"][:]
         del link.flight["B"][:]
-        with sim.guard("connectionLost-raised"):
-            trans[first.name].lose(reason_first)
-        with sim.guard("connectionLost-raised"):
-            trans[peer[first.name].name].lose(reason_second)
+        for name, reason in ((first.name, reason_first), (peer[first.name].name, reason_second)):
+            # the witness says whether a callback issued a request during this connectionLost (issue() sets it)
+            flags["end_guard"] = g = sim.guard("connectionLost-raised")
+            with g:
+                trans[name].lose(reason)
+            flags["end_guard"] = None
         sim.event("connection-ended", first.name, reason_first.type.__name__, *_abstract(ends, opts))
 
     def do_net():
@@ -480,7 +534,10 @@ def run(sim):
     sim.event("drained", *_abstract(ends, opts))
 
     # every Deferred fired exactly once
+    check_fires()
     for i, r in enumerate(requests):
+        if r.get("at_end"):
+            continue        # issued while the connection was being torn down: no verdict (it never fired twice - checked above)
         sim.check("fires-exactly-once", len(r["results"]) == 1, r["kind"],
                   lambda: "request #%d %s.%s(%s) has %d results after %s; states %r"
                   % (i, r["side"], r["kind"], oname(r["opt"]), len(r["results"]),
@@ -550,4 +607,8 @@ MUTANTS = [
     "before d.callback(True) -> caught (fires-exactly-once:wont); wont_yes_true calls disableRemote before d.callback(True) -> caught (fires-exactly-once:dont)",
     "connection-end family: connectionLost skips `him.onResult` -> caught (fires-exactly-once:do/dont); connectionLost errbacks a Deferred twice -> caught "
     "(connectionLost-raised:AlreadyCalledError)",
+    "requests-from-callbacks family (other option / while the connection is torn down): TREE AS FIRST EXAMINED -> connectionLost-raised:request-from-callback:RuntimeError "
+    "(genuine defect, REPAIRED in /repo 54823eb: connectionLost iterated self.options.values() while an errback's request adds a record); with `for state in list(self.options.values())` "
+    "applied as a substitution -> quick clean for seeds 0-5 (every other clause still holds); connectionLost snapshotting the Deferreds but stopping at the "
+    "first one whose errback issues a request (`break` after a request was seen) -> caught (fires-exactly-once)",
 ]
